@@ -12,6 +12,11 @@
 //	   constructors (sequence, nested choice); plus templated nonterminals with flags whose
 //	   alternatives are guarded by [F] / [!F] predicates.
 //
+// Histories: sequences of 2 (thorough: also 3) gen.Generate calls in ONE fresh process over a set of
+// grammars that share the language name and the number of symbols but differ in symbol names, rule
+// shape, precedence block and %prec terminal (all ordered tuples): the .y of the grammar at every
+// position must be byte-identical to the .y the same grammar gets as the first grammar of a process.
+//
 // Oracle: a small reader of the emitted <name>.y (comments and action blocks stripped, `lhs : alt | alt ;`
 // split, %empty ignored, `%prec X` noted) must yield exactly grammar.Parser.Rules in order — left-hand
 // side by nonterminal name, right-hand side terminals by their token ID and nonterminals by name (this
@@ -22,10 +27,13 @@
 package main
 
 import (
+	"bufio"
+	"bytes"
 	"encoding/json"
 	"fmt"
 	"log"
 	"os"
+	"os/exec"
 	"path/filepath"
 	"regexp"
 	"runtime"
@@ -928,6 +936,10 @@ type record struct {
 	Rej  map[string]int `json:"r,omitempty"`  // compiler rejections by message class
 	NT   int            `json:"nt,omitempty"` // accepted cases with a non-trivial export
 	Last int            `json:"last,omitempty"`
+	Pos  int            `json:"p,omitempty"`  // history: position
+	G    int            `json:"g,omitempty"`  // history: grammar index
+	St   string         `json:"st,omitempty"` // history: ok | mismatch | reject | exit | panic | ...
+	Y    string         `json:"y,omitempty"`  // history: the exported text
 }
 
 func trimTo(s string, n int) string {
@@ -942,6 +954,14 @@ func worker(w *core.Worker) {
 	if len(w.Args) < 1 {
 		fmt.Fprintln(os.Stderr, "worker: source expected")
 		os.Exit(2)
+	}
+	switch w.Args[0] {
+	case "hist":
+		histWorker(w)
+		return
+	case "histfile":
+		histFileWorker(w)
+		return
 	}
 	cases := loadCases(w.Tier, w.Args[0])
 	var deadline time.Time
@@ -1034,11 +1054,426 @@ func worker(w *core.Worker) {
 }
 
 // ---------------------------------------------------------------------------------------------
+// Histories: several gen.Generate calls in ONE process. The grammars of a history all carry the same
+// language name ("hist") and have the same number of symbols but differ in the names of their
+// terminals / nonterminals (also: the same names in another order), in the shape of the recursive
+// rule, in the precedence block and in the %prec terminal — so that anything the exporter keeps
+// between two calls (keyed by name, by size, by position ...) shows up. Every history runs in a
+// process of its own; the .y written for the grammar at each position must be byte-identical to the
+// .y the same grammar gets when it is the first and only grammar of a process.
+
+type histGrammar struct {
+	t1, t2   string // terminals as written in the grammar
+	swapDecl bool   // declare t2 before t1 in the lexer (same names, other symbol numbers)
+	start    string
+	rec      string
+	right    bool   // right recursion
+	prec     string // precedence block
+	marker   string // %prec terminal
+	midrule  bool   // one more symbol: a mid-rule action
+}
+
+var histGrammars = []histGrammar{
+	{"'a'", "'b'", false, "input", "Left", false, "%left 'b';", "'b'", false},
+	{"'c'", "'d'", false, "input", "Right", true, "%left 'd';", "'d'", false},
+	{"'a'", "'b'", false, "input", "Right", false, "%right 'a';\n%nonassoc 'b';", "'b'", false},
+	{"'a'", "'b'", true, "input", "Left", false, "%left 'b';", "'b'", false},
+	{"'c'", "'d'", false, "start", "Left", true, "%nonassoc 'c' 'd';", "'c'", false},
+	{"'a'", "'b'", false, "input", "Left", true, "%left 'b';", "'b'", false},
+	{"'a'", "'b'", false, "input", "Left", false, "%right 'b';", "'b'", false},
+	{"'a'", "'b'", false, "input", "Left", false, "%left 'a' 'b';", "'a'", false},
+	// thorough only
+	{"ta", "tb", false, "start", "Right", false, "%left tb;\n%left ta;", "ta", false},
+	{"'c'", "'d'", true, "input", "Right", true, "%right 'd';", "'d'", false},
+	{"'a'", "'b'", false, "input", "Left", false, "%left 'b';", "'b'", true},
+	{"ta", "tb", true, "start", "Left", true, "%nonassoc ta tb;", "tb", false},
+}
+
+const histQuick = 8
+
+func (h histGrammar) tm() string {
+	var sb strings.Builder
+	sb.WriteString("language hist(go);\n\npackage = \"scratch/hist\"\nwriteBison = true\n\n:: lexer\n\n")
+	if h.swapDecl {
+		fmt.Fprintf(&sb, "%s: /y/\n%s: /x/\n", h.t2, h.t1)
+	} else {
+		fmt.Fprintf(&sb, "%s: /x/\n%s: /y/\n", h.t1, h.t2)
+	}
+	fmt.Fprintf(&sb, "\n:: parser\n\n%%input %s;\n\n%s\n\n%s : %s ;\n", h.start, h.prec, h.start, h.rec)
+	mid := ""
+	if h.midrule {
+		mid = "{ /*mid*/ } "
+	}
+	if h.right {
+		fmt.Fprintf(&sb, "%s : %s %s%s | %s %s %%prec %s ;\n", h.rec, h.t1, mid, h.t2, h.t1, h.rec, h.marker)
+	} else {
+		fmt.Fprintf(&sb, "%s : %s %s%s | %s %s %%prec %s ;\n", h.rec, h.t1, mid, h.t2, h.rec, h.t1, h.marker)
+	}
+	return sb.String()
+}
+
+func (h histGrammar) desc() string {
+	d := fmt.Sprintf("%s,%s", h.t1, h.t2)
+	if h.swapDecl {
+		d += "(declared in reverse)"
+	}
+	d += " " + h.start + "/" + h.rec
+	if h.right {
+		d += " right-rec"
+	} else {
+		d += " left-rec"
+	}
+	d += " [" + strings.ReplaceAll(h.prec, "\n", " ") + "] %prec " + h.marker
+	if h.midrule {
+		d += " +mid-rule"
+	}
+	return d
+}
+
+// histories lists the tuples of grammar indices: the singletons first (they provide the fresh
+// exports), then all ordered pairs, then (thorough) all ordered triples.
+func histories(tier string) [][]int {
+	n := histQuick
+	if tier != "quick" {
+		n = len(histGrammars)
+	}
+	var out [][]int
+	for i := 0; i < n; i++ {
+		out = append(out, []int{i})
+	}
+	for i := 0; i < n; i++ {
+		for j := 0; j < n; j++ {
+			out = append(out, []int{i, j})
+		}
+	}
+	if tier != "quick" {
+		for i := 0; i < n; i++ {
+			for j := 0; j < n; j++ {
+				for k := 0; k < n; k++ {
+					out = append(out, []int{i, j, k})
+				}
+			}
+		}
+	}
+	return out
+}
+
+func histDesc(t []int) string {
+	var parts []string
+	for _, gi := range t {
+		parts = append(parts, fmt.Sprintf("#%d{%s}", gi, histGrammars[gi].desc()))
+	}
+	return "history: " + strings.Join(parts, " -> ")
+}
+
+// runHistory generates the given texts one after another in this process and emits one record per
+// position.
+func runHistory(w *core.Worker, idx int, tms []string, gis []int) {
+	for pos, tm := range tms {
+		r := record{T: "h", Idx: idx, Pos: pos, G: -1, St: "ok"}
+		if gis != nil {
+			r.G = gis[pos]
+		}
+		g, files, genErr, genPanic := genharness.Generate("hist", tm)
+		if genErr != "" || genPanic != "" {
+			r.St, r.Key = genFailureKey(genErr, genPanic)
+			r.What = trimTo(genErr+genPanic, 1200)
+			w.Emit(r)
+			continue
+		}
+		y, ok := files["hist.y"]
+		if !ok {
+			r.St, r.Key, r.What = "no-y", "no-bison-file", "writeBison = true but no hist.y"
+			w.Emit(r)
+			continue
+		}
+		r.Y = y
+		if pos == 0 {
+			// the first grammar of a process: the model oracle applies as for any other case
+			if key, what := checkY(g, y); key != "" {
+				r.St, r.Key, r.What = "mismatch", key, what
+			}
+		}
+		w.Emit(r)
+	}
+}
+
+// histWorker: a worker that is asked for one history (Only >= 0) runs it in this very process, which
+// is fresh; otherwise it starts one child process per history of its share and relays the records.
+func histWorker(w *core.Worker) {
+	hs := histories(w.Tier)
+	var deadline time.Time
+	if len(w.Args) >= 2 {
+		if u, err := strconv.ParseInt(w.Args[1], 10, 64); err == nil && u > 0 {
+			deadline = time.Unix(u, 0)
+		}
+	}
+	for idx, t := range hs {
+		if !w.Mine(idx) {
+			continue
+		}
+		if w.Only >= 0 {
+			w.Case(idx, histDesc(t))
+			var tms []string
+			for _, gi := range t {
+				tms = append(tms, histGrammars[gi].tm())
+			}
+			runHistory(w, idx, tms, t)
+			continue
+		}
+		if !deadline.IsZero() && time.Now().After(deadline) {
+			w.Emit(record{T: "cap", Idx: idx})
+			break
+		}
+		w.Case(idx, histDesc(t))
+		cmd := exec.Command(os.Args[0], "worker", w.Tier, "0", "1", "0", strconv.Itoa(idx), "hist")
+		var stderr bytes.Buffer
+		cmd.Stderr = &stderr
+		stdout, err := cmd.StdoutPipe()
+		if err != nil || cmd.Start() != nil {
+			w.Emit(record{T: "h", Idx: idx, Pos: -1, St: "harness", What: "cannot start the child process"})
+			continue
+		}
+		timer := time.AfterFunc(90*time.Second, func() { cmd.Process.Kill() })
+		done := false
+		sc := bufio.NewScanner(stdout)
+		sc.Buffer(make([]byte, 1<<20), 1<<24)
+		for sc.Scan() {
+			line := sc.Text()
+			switch {
+			case strings.HasPrefix(line, "= "):
+				w.Emit(json.RawMessage(line[2:]))
+			case strings.HasPrefix(line, "$ done"):
+				done = true
+			}
+		}
+		werr := cmd.Wait()
+		timer.Stop()
+		if !done {
+			w.Emit(record{T: "h", Idx: idx, Pos: -1, St: "death", Key: deathKey(fmt.Sprint(werr), stderr.String()), What: fmt.Sprintf("the process running the history died (%v)\n%s", werr, trimTo(stderr.String(), 1200))})
+		}
+		w.Flush()
+	}
+}
+
+// histFileWorker (replay): the file holds the texts of one history.
+func histFileWorker(w *core.Worker) {
+	if !w.Mine(0) {
+		return
+	}
+	data, err := os.ReadFile(w.Args[1])
+	if err != nil {
+		panic(err)
+	}
+	var tms []string
+	if err := json.Unmarshal(data, &tms); err != nil {
+		panic(err)
+	}
+	w.Case(0, fmt.Sprintf("history of %d grammars", len(tms)))
+	runHistory(w, 0, tms, nil)
+}
+
+// diffClass names the part of the export in which got differs from ref.
+func diffClass(ref, got string) (class, what string) {
+	a, errA := parseY(ref)
+	b, errB := parseY(got)
+	first := func() string {
+		la, lb := strings.Split(ref, "\n"), strings.Split(got, "\n")
+		for i := 0; i < len(la) || i < len(lb); i++ {
+			x, y := "", ""
+			if i < len(la) {
+				x = la[i]
+			}
+			if i < len(lb) {
+				y = lb[i]
+			}
+			if x != y {
+				return fmt.Sprintf("line %d: fresh %q, in the history %q", i+1, x, y)
+			}
+		}
+		return ""
+	}
+	if errA != nil || errB != nil {
+		return "text", first()
+	}
+	switch {
+	case strings.Join(a.Prec, ";") != strings.Join(b.Prec, ";"):
+		return "precedence-declarations", first()
+	case strings.Join(a.Tokens, " ") != strings.Join(b.Tokens, " "):
+		return "token-declarations", first()
+	case strings.Join(a.Starts, " ") != strings.Join(b.Starts, " "):
+		return "start-symbols", first()
+	case len(a.Rules) != len(b.Rules):
+		return "rule-count", first()
+	}
+	for i := range a.Rules {
+		switch {
+		case a.Rules[i].LHS != b.Rules[i].LHS:
+			return "lhs", first()
+		case strings.Join(a.Rules[i].RHS, " ") != strings.Join(b.Rules[i].RHS, " "):
+			return "rhs-symbols", first()
+		case a.Rules[i].Prec != b.Rules[i].Prec:
+			return "prec-marker", first()
+		}
+	}
+	return "text", first()
+}
+
+// runHistories is the parent side of the history phase.
+func runHistories(c *core.Ctx) {
+	hs := histories(c.Tier)
+	type posRec struct {
+		st, key, what, y string
+		seen             bool
+	}
+	recs := make([][]posRec, len(hs))
+	for i, t := range hs {
+		recs[i] = make([]posRec, len(t))
+	}
+	capAt := -1
+	type hv struct {
+		idx, pos, count int
+		what            string
+	}
+	vs := map[string]*hv{}
+	add := func(idx, pos int, key, what string) {
+		p, ok := vs[key]
+		if !ok {
+			vs[key] = &hv{idx, pos, 1, what}
+			return
+		}
+		p.count++
+		if idx < p.idx {
+			p.idx, p.pos, p.what = idx, pos, what
+		}
+	}
+	c.RunShards(core.ShardOpts{
+		N:       16,
+		Args:    []string{"hist", strconv.FormatInt(c.Deadline.Unix(), 10)},
+		Silence: 200 * time.Second,
+		OnRecord: func(shard int, raw json.RawMessage) {
+			var r record
+			if json.Unmarshal(raw, &r) != nil {
+				return
+			}
+			switch r.T {
+			case "cap":
+				if capAt < 0 || r.Idx < capAt {
+					capAt = r.Idx
+				}
+			case "h":
+				if r.Idx < 0 || r.Idx >= len(hs) {
+					return
+				}
+				if r.Pos < 0 {
+					if r.St == "death" {
+						add(r.Idx, len(hs[r.Idx])-1, "history:"+r.Key, r.What)
+					} else {
+						c.Capped("history phase: " + r.What)
+					}
+					return
+				}
+				if r.Pos < len(recs[r.Idx]) {
+					recs[r.Idx][r.Pos] = posRec{r.St, r.Key, r.What, r.Y, true}
+				}
+			}
+		},
+		OnDeath: func(idx int, desc, how, tail string) {
+			add(idx, len(hs[idx])-1, "history:"+deathKey(how, tail), fmt.Sprintf("worker died (%s)\n%s", how, trimTo(tail, 1200)))
+		},
+	})
+	// fresh exports
+	nG := histQuick
+	if !c.Quick() {
+		nG = len(histGrammars)
+	}
+	fresh := make([]string, nG)
+	for gi := 0; gi < nG; gi++ {
+		r := recs[gi][0]
+		switch {
+		case !r.seen:
+		case r.st == "reject":
+			c.Capped(fmt.Sprintf("history grammar #%d is rejected by the compiler (vacuous): %s", gi, trimTo(r.what, 200)))
+		case r.key != "":
+			add(gi, 0, r.key, r.what)
+		default:
+			fresh[gi] = r.y
+		}
+	}
+	var tuples, compared, distinct int64
+	for idx := nG; idx < len(hs); idx++ {
+		t := hs[idx]
+		complete := true
+		for pos := range t {
+			complete = complete && recs[idx][pos].seen
+		}
+		if !complete {
+			continue
+		}
+		tuples++
+		d := false
+		for pos, gi := range t {
+			if pos > 0 && gi != t[pos-1] {
+				d = true
+			}
+			r := recs[idx][pos]
+			if fresh[gi] == "" {
+				continue
+			}
+			compared++
+			switch {
+			case r.st != "ok" && r.st != "mismatch":
+				key := r.key
+				if key == "" {
+					key = "compile-rejected-only-in-history"
+				}
+				add(idx, pos, "history:"+key, fmt.Sprintf("position %d of %s: %s", pos, histDesc(t), r.what))
+			case r.y != fresh[gi]:
+				class, what := diffClass(fresh[gi], r.y)
+				add(idx, pos, "history:export-differs-from-first-in-process:"+class,
+					fmt.Sprintf("the .y written for the grammar at position %d of %s differs from the .y the same grammar gets as the first grammar of a process (%s)\n--- in the history ---\n%s", pos, histDesc(t), what, trimTo(r.y, 900)))
+			}
+		}
+		if d {
+			distinct++
+		}
+	}
+	c.Eval(tuples)
+	c.Nontrivial(distinct)
+	c.Set("histories_planned", len(hs)-nG)
+	c.Set("histories_run", tuples)
+	c.Set("history_exports_compared_with_fresh", compared)
+	c.Outcome("history: exports compared with the first-in-process export", compared)
+	if capAt >= 0 {
+		c.Capped(fmt.Sprintf("history phase stopped at the budget at history %d of %d", capAt, len(hs)))
+	}
+	var keys []string
+	for k := range vs {
+		keys = append(keys, k)
+	}
+	sort.Strings(keys)
+	for _, k := range keys {
+		p := vs[k]
+		t := hs[p.idx]
+		var tms []string
+		for _, gi := range t[:p.pos+1] {
+			tms = append(tms, histGrammars[gi].tm())
+		}
+		rc := replayCase{Desc: histDesc(t[:p.pos+1]), TM: tms[len(tms)-1], History: tms}
+		c.Violate(k, fmt.Sprintf("%s\n(%d occurrence(s) with this key; simplest: %s)", p.what, p.count, histDesc(t)), rc)
+		for i := 1; i < p.count; i++ {
+			c.Violate(k, "", nil)
+		}
+	}
+}
+
+// ---------------------------------------------------------------------------------------------
 // Parent.
 
 type replayCase struct {
-	Desc string `json:"desc"`
-	TM   string `json:"tm"`
+	Desc    string   `json:"desc"`
+	TM      string   `json:"tm"`
+	History []string `json:"history,omitempty"` // texts generated in one process, in order (the last one is TM)
 }
 
 type vio struct {
@@ -1089,6 +1524,9 @@ func run(c *core.Ctx) {
 	c.Set("planned_cases", len(cases))
 	c.Set("planned_by_family", fam)
 	c.Set("shape_kinds", len(kinds))
+
+	// the history phase first: it is small (one short-lived process per history)
+	runHistories(c)
 
 	vs := map[string]*vio{}
 	add := func(idx int, key, what string) {
@@ -1165,6 +1603,46 @@ func run(c *core.Ctx) {
 	}
 }
 
+// replayHistory generates the recorded history in one fresh process and its last grammar alone in
+// another one and compares the two exports of that grammar.
+func replayHistory(c *core.Ctx, rc replayCase, dir string) error {
+	var fails []string
+	gen := func(tms []string, file string) string {
+		data, _ := json.Marshal(tms)
+		os.WriteFile(file, data, 0o644)
+		last := ""
+		c.RunShards(core.ShardOpts{
+			N: 1, Args: []string{"histfile", file}, Confirm: 1,
+			OnRecord: func(shard int, raw json.RawMessage) {
+				var r record
+				if json.Unmarshal(raw, &r) != nil || r.T != "h" {
+					return
+				}
+				if r.Pos == len(tms)-1 {
+					last = r.Y
+					if r.St != "ok" && r.St != "mismatch" {
+						fails = append(fails, "history:"+r.Key+": "+r.What)
+					}
+				}
+			},
+			OnDeath: func(idx int, desc, how, tail string) {
+				fails = append(fails, "history:"+deathKey(how, tail)+": worker died ("+how+")")
+			},
+		})
+		return last
+	}
+	inHistory := gen(rc.History, filepath.Join(dir, "history.json"))
+	fresh := gen(rc.History[len(rc.History)-1:], filepath.Join(dir, "fresh.json"))
+	if len(fails) == 0 && inHistory != fresh {
+		class, what := diffClass(fresh, inHistory)
+		fails = append(fails, "history:export-differs-from-first-in-process:"+class+": "+what)
+	}
+	if len(fails) > 0 {
+		return fmt.Errorf("%s", strings.Join(fails, "\n"))
+	}
+	return nil
+}
+
 func replay(c *core.Ctx, raw json.RawMessage) error {
 	var rc replayCase
 	if err := json.Unmarshal(raw, &rc); err != nil {
@@ -1175,6 +1653,9 @@ func replay(c *core.Ctx, raw json.RawMessage) error {
 		return err
 	}
 	defer os.RemoveAll(dir)
+	if len(rc.History) > 0 {
+		return replayHistory(c, rc, dir)
+	}
 	srcFile := filepath.Join(dir, "cases.json")
 	data, _ := json.Marshal([]fileCase{{Desc: rc.Desc, TM: rc.TM}})
 	os.WriteFile(srcFile, data, 0o644)
